@@ -73,6 +73,10 @@ type genWorld struct {
 	nextOp    int           // operators registered during the history (dom_genesis_boundary.go)
 	selfUnd   map[int]int64 // what a genesis operator undelegated of its own genesis stake
 	lastOp    operatorView  // the operator module as read before the last export
+
+	// multi-asset world (dom_genesis_multi.go): three LSTs with genesis holders
+	multi   bool
+	genFree map[[2]int]int64 // withdrawable genesis holdings per (staker, asset)
 }
 
 func (w *genWorld) op(op, obs string) {
@@ -451,6 +455,15 @@ func (w *genWorld) roundTripWith(contBlocks int, directed bool) (res roundTripRe
 	c := w.c
 	res.validateErr = map[string]string{}
 	res.storeDiff = map[string][]string{}
+	// the app-wide export runs the modules' ExportGenesis in a goroutine of its own, where a panic cannot be recovered:
+	// each of the eight modules is exported on the committed state under recover() first
+	pre := exportModulesCtx(c, committedCtx(c))
+	for _, m := range c18Modules {
+		if strings.HasPrefix(pre[m], "<export panic:") {
+			res.importErr = "export: ExportGenesis of module " + m + " panicked on the committed state: " + pre[m]
+			return
+		}
+	}
 	exp, err := func() (e struct {
 		AppState json.RawMessage
 		Height   int64
